@@ -7,6 +7,9 @@
 from crysp.poly import *
 from crysp.utils.operators import *
 
+import os
+_VERIF = os.environ.get('BDCHT_CRYSP_VERIF')=='1'
+
 rM    = [0,1,2,3,5,6,7,4,10,11,8,9,15,12,13,14]
 rMinv = [rM.index(x) for x in range(16)]
 
@@ -45,6 +48,7 @@ class Salsa20(object):
         self.p[6:8] = v.split(32)
         maxlen = 1<<64
         i = 0
+        if _VERIF: i = getattr(self,'_verif_block0',0)
         while i<maxlen:
             self.p[8:10] = (i&0xffffffff,i>>32)
             yield self.core(self.p,dround=self.dround)
